@@ -176,6 +176,7 @@ PROPS = {
         "thorough": [st("rel"), st("dbg"), st("fuzz", target="c15", seconds=180, max_len=1024)],
         "floors": {"quick": {"evaluations": 40000, "distinct_nontrivial": 30000, "scheme_feeds_ok": 4000,
                              "duplicates_rejected": 2000, "too_deep_rejected": 1000}},
+        "technique": "runtime monitoring: reference-model differential oracle over generated workloads (exhaustive up to 12 layers); thorough adds a coverage-guided (libFuzzer, ASan) workload decided by the accept-implies-round-trip oracle",
         "assumptions": COMMON_ASSUMPTIONS + ["the wasm binding is not executed (no wasm target); its only logic, Scheme: Deserialize with owned keys, is exercised through from_reader/from_value"],
     },
     "C16": {
@@ -228,6 +229,7 @@ PROPS = {
         "thorough": [st("rel"), st("dbg"), st("fuzz", target="c04", seconds=300)],
         "floors": {"quick": {"evaluations": 50000, "distinct_nontrivial": 15000, "accepted": 5000, "rejected": 10000,
                              "random_ill_typed": 3000, "random_well_typed": 4000}},
+        "technique": "runtime monitoring: reference-model differential oracle over generated workloads; thorough adds a coverage-guided (libFuzzer, ASan) workload decided by the no-panic / value-has-static-type oracle",
         "assumptions": COMMON_ASSUMPTIONS + ["the typing rules of harness/src/refsem.rs and the expectation tables of props/c04.rs are the documented rules (reviewed cell by cell against the statement; DESIGN.md 3.3 lists the readings adopted)"],
     },
     "C19": {
@@ -329,6 +331,7 @@ PROPS = {
         "floors": {"quick": {"evaluations": 30000, "distinct_nontrivial": 8000, "round_trips_ok": 5000,
                              "mutants_accepted": 3000, "mutants_rejected": 10000, "ffi_ok": 500}},
         "on_death": "sanitizer",
+        "technique": "runtime monitoring: reference-model differential oracle over generated workloads (round trips through five feeds, JSON acceptance model on mutants), AddressSanitizer and Miri stages; thorough adds a coverage-guided (libFuzzer, ASan) workload decided by the accept-implies-round-trip oracle",
         "assumptions": COMMON_ASSUMPTIONS + ["the JSON acceptance model in props/c14.rs is the documented encoding (strings or byte arrays for Bytes, objects or pair arrays for maps)"],
     },
     "C18": {
